@@ -99,8 +99,10 @@ func c09Directed() []c09Entry {
 			convergeQuietly(r)
 			w := r.W
 			w.Srv.Mutate(simapi.Pods, world.NS, "web-0", func(o runtime.Object) { o.(*corev1.Pod).OwnerReferences = nil })
-			w.Srv.Mutate(simapi.Pods, world.NS, "web-1", func(o runtime.Object) { o.(*corev1.Pod).Labels["app"] = "other" })
-			w.Srv.Mutate(simapi.Pods, world.NS, "web-2", func(o runtime.Object) { delete(o.(*corev1.Pod).Labels, asv1.StatefulSetPodNameLabel) })
+			// (the released pod has the highest ordinal: its name stays squatted, and a Parallel pass stops at the
+			// failed re-create of that ordinal, which must come after the identity update of a lower one)
+			w.Srv.Mutate(simapi.Pods, world.NS, "web-3", func(o runtime.Object) { o.(*corev1.Pod).Labels["app"] = "other" })
+			w.Srv.Mutate(simapi.Pods, world.NS, "web-1", func(o runtime.Object) { delete(o.(*corev1.Pod).Labels, asv1.StatefulSetPodNameLabel) })
 		}),
 		mk("migrated revisions: label sync and adoption of marker orphans", world.SetOpts{Replicas: 2, Policy: asv1.OrderedReadyPodManagement, HistLimit: 5}, func(r *world.Runner) {
 			convergeQuietly(r)
